@@ -68,6 +68,37 @@ func (m *Monitor) Check(w *World, pre raft.VNode, op Op, post raft.VNode) *Bad {
 	if bad := m.checkSnapshotLabel(w, pre, op, post); bad != nil {
 		return bad
 	}
+	if bad := m.checkInfo(w, pre, op, post); bad != nil {
+		return bad
+	}
+	return nil
+}
+
+// checkInfo: C19 on the state a status report would show after this step.
+func (m *Monitor) checkInfo(w *World, pre raft.VNode, op Op, post raft.VNode) *Bad {
+	if post.CommitIndex < pre.CommitIndex {
+		return &Bad{"C19", fmt.Sprintf("commit index regressed %d -> %d", pre.CommitIndex, post.CommitIndex)}
+	}
+	if post.Fsm.Index < pre.Fsm.Index {
+		return &Bad{"C19", fmt.Sprintf("last applied regressed %d -> %d", pre.Fsm.Index, post.Fsm.Index)}
+	}
+	if post.SnapIndex < pre.SnapIndex {
+		return &Bad{"C19", fmt.Sprintf("snapshot index regressed %d -> %d", pre.SnapIndex, post.SnapIndex)}
+	}
+	if !(post.Fsm.Index <= post.CommitIndex && post.CommitIndex <= post.LastLogIndex) {
+		return &Bad{"C19", fmt.Sprintf("ordering lastApplied %d <= committed %d <= lastLogIndex %d violated", post.Fsm.Index, post.CommitIndex, post.LastLogIndex)}
+	}
+	if !(post.Log.Prev <= post.SnapIndex && post.SnapIndex <= post.LastLogIndex) {
+		return &Bad{"C19", fmt.Sprintf("ordering firstLogIndex-1 %d <= snapshotIndex %d <= lastLogIndex %d violated", post.Log.Prev, post.SnapIndex, post.LastLogIndex)}
+	}
+	if post.Configs.Committed.Index > post.Configs.Latest.Index {
+		return &Bad{"C19", "committed configuration index above latest configuration index"}
+	}
+	if want, ok := newestConfigAtOrBelow(&post, post.LastLogIndex); ok {
+		if want.Index != post.Configs.Latest.Index || fmt.Sprint(want.Nodes) != fmt.Sprint(post.Configs.Latest.Nodes) {
+			return &Bad{"C19", fmt.Sprintf("latest configuration (index %d) is not the newest configuration entry in log/snapshot (index %d)", post.Configs.Latest.Index, want.Index)}
+		}
+	}
 	return nil
 }
 
